@@ -150,7 +150,11 @@ impl<R: BufRead + Seek + Position> ReadValue for ValueReader<R> {
     }
 
     fn skip(&mut self, len: usize) -> Result<(), ProtobufError> {
-        self.inner.seek_relative(len as i64)?;
+        // A length that does not fit in an `i64` is necessarily larger than
+        // the input. Casting it would produce a negative offset and move the
+        // reader backwards.
+        let offset = i64::try_from(len).map_err(|_| ProtobufError::new(ErrorKind::Eof))?;
+        self.inner.seek_relative(offset)?;
         Ok(())
     }
 
@@ -254,25 +258,33 @@ impl<'a, R: ReadValue> LimitReader<'a, R> {
     /// Create a reader which reads up to `len` bytes of `inner`.
     pub fn new(inner: &'a mut R, len: u64) -> Self {
         Self {
-            end: inner.position() + len,
+            end: inner.position().saturating_add(len),
             inner,
         }
     }
 
     /// Create a sub-reader which reads up to `len` bytes of this reader.
-    pub fn sub_limit(&mut self, len: u64) -> LimitReader<'_, R> {
-        LimitReader {
-            end: self.inner.position() + len,
+    ///
+    /// Fails if fewer than `len` bytes remain before the limit of this reader.
+    pub fn sub_limit(&mut self, len: u64) -> Result<LimitReader<'_, R>, ProtobufError> {
+        let end = self.end_of(len)?;
+        Ok(LimitReader {
+            end,
             inner: self.inner,
+        })
+    }
+
+    /// Return the position following the next `len` bytes, or an error if
+    /// this is beyond the limit of this reader.
+    fn end_of(&self, len: u64) -> Result<u64, ProtobufError> {
+        match self.position().checked_add(len) {
+            Some(end) if end <= self.end => Ok(end),
+            _ => Err(ProtobufError::new(ErrorKind::Eof)),
         }
     }
 
     fn check_has_bytes(&self, len: usize) -> Result<(), ProtobufError> {
-        if self.position() + (len as u64) <= self.end {
-            Ok(())
-        } else {
-            Err(ProtobufError::new(ErrorKind::Eof))
-        }
+        self.end_of(len as u64).map(|_| ())
     }
 }
 
